@@ -264,6 +264,9 @@ fn summarize(c: &Client) -> String {
     )
 }
 
+/// the schedule that is being run (for the hang handler)
+static CASE: std::sync::Mutex<String> = std::sync::Mutex::new(String::new());
+
 struct RunResult {
     outcome: sched::Outcome,
     state: String,
@@ -416,12 +419,45 @@ pub(crate) fn run(opts: &Opts, report: &mut Report) {
         }
     }
     let n_items = pairs.len();
+    // the scheduler's detection of threads that block at a lock without a lock point is tested on
+    // every run (two plain mutexes; once benign: a forced switch, once a real deadlock)
+    if crate::verif::props::shard::child_item().is_none() {
+        let exe = std::env::current_exe().expect("current exe");
+        for (mode, want) in [("sched-benign", 0), ("sched-deadlock", 42)] {
+            let st = std::process::Command::new(&exe).arg("smoke").env("SMOKE", mode).stdout(std::process::Stdio::null()).stderr(std::process::Stdio::null()).status();
+            let code = st.ok().and_then(|s| s.code());
+            if code != Some(want) {
+                eprintln!("E-sched self-test `{}`: exit {:?}, expected {} (machinery failure)", mode, code, want);
+                std::process::exit(2);
+            }
+            report.count(&format!("scheduler_selftest_passed/{}", mode), 1);
+        }
+    }
     let worker = crate::verif::props::shard::run("C17", opts, report, n_items, 16, |item, report| {
         let env = Env::dummy();
         let (main, fork) = chains(&env);
         let (pre, ops) = pairs[item];
         let name = format!("{}{:?}+{:?}", if pre == 0 { "" } else { "synced/" }, ops[0], ops[1]);
         let mut old: Option<Sim> = None;
+        // two threads that wait for each other through a lock without a lock point cannot be
+        // unwound: the violation is written as this worker's result and the process ends (the
+        // remaining schedules of this pair are then not run)
+        {
+            let name = name.clone();
+            let tier = opts.tier.clone();
+            let seed = opts.seed;
+            sched::set_hang_handler(Some(Arc::new(move |log: &[String]| {
+                let mut r = Report::new("C17", &tier, seed);
+                let case = CASE.lock().unwrap_or_else(|e| e.into_inner()).clone();
+                r.count("pairs_cut_short_by_a_deadlock", 1);
+                r.violation(
+                    format!("deadlock/{}", name),
+                    format!("[{}] {}: the two threads wait for each other (at least one of them at a lock that has no lock point): {:?}", name, case, log),
+                    json!({"pair": name, "schedule": case, "log": log}),
+                );
+                crate::verif::props::shard::write_result_and_exit(&r);
+            })));
+        }
         // ---- the two serial orders
         let mut serial_states: Vec<String> = vec![];
         let mut serial_summaries: Vec<String> = vec![];
@@ -493,6 +529,7 @@ pub(crate) fn run(opts: &Opts, report: &mut Report) {
         let mut distinct_outcomes: BTreeSet<String> = BTreeSet::new();
         for (first, plan, defines_reference) in plans {
             crate::verif::props::shard::journal(&format!("{} first={} plan={:?}", name, first, plan));
+            *CASE.lock().unwrap_or_else(|e| e.into_inner()) = format!("first={} preempted at {:?}", first, plan);
             let r = match run_schedule(&env, &main, &fork, &mut old, pre, ops, first, plan.clone()) {
                 Some(r) => r,
                 None => continue,
@@ -504,6 +541,7 @@ pub(crate) fn run(opts: &Opts, report: &mut Report) {
             if r.outcome.overlapped {
                 overlapped += 1;
             }
+            report.count("forced_switches_at_locks_without_a_lock_point", r.outcome.forced_switches);
             let sched_json = json!({"pair": name, "first": first, "preemptions": plan, "log": r.outcome.log});
             if r.outcome.deadlock {
                 report.violation(format!("deadlock/{}", name), format!("[{}] first={} preempted at {:?}: no thread can run: {:?}", name, first, plan, r.outcome.log), sched_json.clone());
@@ -575,7 +613,7 @@ pub(crate) fn run(opts: &Opts, report: &mut Report) {
     report.set("traces_validated_against_impl", json!(s));
     report.set("rule", json!("one schedule = the two operations of a pair on two real threads over a rebuilt pre-state, exactly one thread runnable between hook points, preempted at the listed hook points; all schedules with <= 1 (thorough 2) preemptions of every pair; overlapped_schedules = schedules in which one operation ran to completion while the other was parked inside its own"));
     report.set("bounds", json!({"preemptions": if thorough { 2 } else { 1 }, "operations": OPS.iter().map(|o| format!("{:?}", o)).collect::<Vec<_>>(), "pairs": "all unordered pairs with at least one writer, each started by either thread"}));
-    report.assume("memory orderings and blocking inside RocksDB / DashMap shards are not scheduling points (a thread that blocks there is a machinery error after 30 s); two pre-states");
+    report.assume("memory orderings are not explored; a thread that blocks at a primitive without a lock point (any other lock, a DashMap shard, RocksDB) is detected by its OS state and the turn is forced over (counted); two threads blocking each other that way are reported as a deadlock; two pre-states");
     let _: BTreeMap<u8, u8> = BTreeMap::new();
 }
 
